@@ -301,7 +301,7 @@ def gen(tier, seed):
 RULE = ('symbolic environment: ENV[16] arbitrary bytes; field type D<I> has Default = D(ENV[I]); field expressions are D(src(J)) with their own slot J; type-level expressions build the value from further slots. '
         'one config = struct/enum/union shape x marker position x per-field {default, expression} x type-level expression on/off x new on/off. default() must be the designated variant/field with every field equal to its own slot, for all ENV. '
         'Literal table configs (literal kind x field type x spelling) are closed terms that CBMC merely evaluates; they are counted in closed_term_obligations. Non-trivial = harness passed and reached.')
-BOUNDS = dict(max_fields=3, max_variants=3, env_slots=16, outside=['user expressions other than calls and literals', '>3 fields/variants'])
+BOUNDS = dict(max_fields='3; plus 13-field tuple / named / enum-variant modules', max_variants=3, env_slots=16, outside=['user expressions other than calls and literals', '>3 fields/variants'])
 ASSUME = ['Kani 0.68 / CBMC 6.11 / CaDiCaL; rustc nightly-2026-08-21 x86_64 dev profile',
           'the value quantifier is introduced by the harness (symbolic environment); the literal table has nothing symbolic',
           'oracle (designated variant/field and source slot per field) written from the config by vk/p_c08.py']
